@@ -353,6 +353,7 @@ void __wrap__ZNSt6thread4joinEv(void* thr) {
 }
 void __wrap__ZNSt6thread6detachEv(void* thr) { *(uint64_t*)thr = 0; }
 unsigned __wrap__ZNSt6thread20hardware_concurrencyEv() { return 2; }
+void vf_untag_register(void*) {}  // tagged-pointer hint for the CBMC model (rt_defs VF_UNTAG); nothing to do natively
 void vf_wait_started(uint32_t n) {
   while (g_std_threads_started < n) {
     if (g_threads_used) vf_yield(-6); else break;
